@@ -356,7 +356,8 @@ def check_engine(expr):
 
 SELECTOR_MEMBERS = [("name.$", "$$.State.Name"), ("idx.$", "$$.Map.Item.Index"), ("val.$", "$$.Map.Item.Value"), ("xname.$", "$$.Execution.Name"), ("inp.$", "$$.Execution.Input.n"),
                     ("fmt.$", "States.Format('{}#{}', $$.State.Name, $$.Map.Item.Index)"), ("arr.$", "States.Array($$.Map.Item.Value, $$.State.Name)"), ("n.$", "$.n"),
-                    ("sum.$", "States.MathAdd($$.Map.Item.Index, $.n)"), ("lit", {"a": [1, None]}), ("nest", {"who.$": "$$.State.Name", "at.$": "$$.Map.Item.Index"})]
+                    ("sum.$", "States.MathAdd($$.Map.Item.Index, $.n)"), ("lit", {"a": [1, None]}), ("nest", {"who.$": "$$.State.Name", "at.$": "$$.Map.Item.Index"}),
+                    ("inc.$", "States.MathAdd($$.Map.Item.Value, 1)")]     # (fails for every item that is not an integer)
 
 
 def check_map_selector(sc):
@@ -369,28 +370,52 @@ def check_map_selector(sc):
         tpl[k_] = copy.deepcopy(v_)
     data = {"n": 3, "items": sc["items"]}
     exp = []
+    failing = None          # index of the first item whose selector cannot be evaluated: the Map state fails as a whole with States.IntrinsicFailure
     for idx, item in enumerate(sc["items"]):
         ctx = {"Execution": {"Input": copy.deepcopy(data), "Name": "e"}, "State": {"Name": "Fan"}, "Map": {"Item": {"Index": idx, "Value": copy.deepcopy(item)}}}
         try:
             exp.append(rt.evaluate_template(copy.deepcopy(tpl), copy.deepcopy(data), ctx))
         except rt.Unspecified:
             return [], True
-        except (rt.IntrinsicFailure, rt.PathFailure):
-            return [], True         # (failing selectors are the subject of the expression families)
+        except rt.IntrinsicFailure:
+            failing = idx
+            break
+        except rt.PathFailure:
+            return [], True
     w = W.World(seed=5)
     try:
         w.add_engine("A")
-        st_, r_ = w.create_state_machine("m", {"StartAt": "Fan", "States": {"Fan": {"Type": "Map", "ItemsPath": "$.items", "ItemSelector": tpl, "MaxConcurrency": sc["mc"], "End": True,
-                                                                                    "ItemProcessor": {"StartAt": "Worker", "States": {"Worker": {"Type": "Pass", "End": True}}}}}})
+        fan = {"Type": "Map", "ItemsPath": "$.items", "ItemSelector": tpl, "MaxConcurrency": sc["mc"], "End": True,
+               "ItemProcessor": {"StartAt": "Worker", "States": {"Worker": {"Type": "Pass", "End": True}}}}
+        states = {"Fan": fan}
+        if sc.get("catch"):
+            fan["Catch"] = [{"ErrorEquals": ["States.ALL"], "ResultPath": "$.err", "Next": "Caught"}]
+            states["Caught"] = {"Type": "Pass", "End": True}
+        st_, r_ = w.create_state_machine("m", {"StartAt": "Fan", "States": states})
         if st_ != 200:
             raise HarnessError("map-selector machine refused: %r" % (r_,))
         st_, resp = w.start_execution(W.sm_arn("m"), data, name="e")
         w.run()
         term = w.terminal(resp["executionArn"])
+        left = w.broker.total_unacked("engine:A")
+        held = len(w.engine().state_engine.branch_metadata)
     finally:
         w.close()
     if term is None:
-        return [("map-selector:no-terminal", "Map with ItemSelector %r never ended" % (tpl,))], False
+        return [("map-selector:no-terminal" + (":selector-fails" if failing is not None else ""), "Map with ItemSelector %r over %r (MaxConcurrency %s, Catch %s) never ended; %d deliveries unacknowledged" % (
+            tpl, sc["items"], sc["mc"], bool(sc.get("catch")), left))], False
+    if failing is not None:
+        where = "first-item" if failing == 0 else "later-item"
+        if sc.get("catch"):
+            out_ = json.loads(term["output"]) if term["status"] == "SUCCEEDED" else None
+            if term["status"] != "SUCCEEDED" or not isinstance(out_, dict) or (out_.get("err") or {}).get("Error") != "States.IntrinsicFailure" or out_.get("items") != sc["items"]:
+                return [("map-selector:caught-failure-wrong-outcome:" + where, "item %d of %r cannot be selected; the Map state's Catcher leads to a Pass End state, the execution ended %s/%s %s" % (
+                    failing, sc["items"], term["status"], term.get("error"), (term.get("cause") or term.get("output") or "")[:200]))], False
+        elif term["status"] != "FAILED" or term.get("error") != "States.IntrinsicFailure":
+            return [("map-selector:failure-wrong-outcome:" + where, "item %d of %r cannot be selected; the execution ended %s/%s" % (failing, sc["items"], term["status"], term.get("error")))], False
+        if left or held:
+            return [("map-selector:left-behind-after-selector-failure:" + where, "%d deliveries unacknowledged, %d join states kept after the execution ended" % (left, held))], False
+        return [], False
     if term["status"] != "SUCCEEDED":
         return [("map-selector:status", "Map with ItemSelector %r over %r ended %s/%s" % (tpl, sc["items"], term["status"], term.get("error")))], False
     got = json.loads(term["output"])
@@ -488,9 +513,10 @@ def shard(k, seed, tier, examples=500, engine_cases=10):
         except HarnessError as e:
             camp.harness_error(e)
     @hypothesis.seed(seed + 7)
-    @settings(max_examples=max(6, engine_cases), deadline=None, database=None, suppress_health_check=list(HealthCheck), phases=[Phase.generate])
+    @settings(max_examples=max(14, engine_cases), deadline=None, database=None, suppress_health_check=list(HealthCheck), phases=[Phase.generate])
     @given(st.fixed_dictionaries({"kind": st.just("map-selector"), "members": st.lists(st.integers(0, len(SELECTOR_MEMBERS) - 1), min_size=1, max_size=4, unique=True),
-                                  "items": st.lists(st.sampled_from([1, "x", {"k": 2}, [3], None, True]), min_size=1, max_size=5), "mc": st.sampled_from([0, 0, 1, 2, 3])}))
+                                  "items": st.lists(st.sampled_from([1, 1, 2, "x", {"k": 2}, [3], None, True]), min_size=1, max_size=5), "mc": st.sampled_from([0, 0, 1, 2, 3]),
+                                  "catch": st.booleans()}))
     def selectors(sc):
         try:
             fs, skipped = check_map_selector(sc)
@@ -500,7 +526,7 @@ def shard(k, seed, tier, examples=500, engine_cases=10):
         if skipped:
             camp.count("skipped-unspecified")
             return
-        camp.case(sc, nontrivial=len(sc["items"]) >= 2, classes=["map-selector", "map-selector-items-%d" % min(len(sc["items"]), 3), "map-selector-mc-%d" % sc["mc"]])
+        camp.case(sc, nontrivial=len(sc["items"]) >= 2, classes=["map-selector", "map-selector-items-%d" % min(len(sc["items"]), 3), "map-selector-mc-%d" % sc["mc"]] + (["map-selector-with-catch"] if sc.get("catch") else []))
         for b, d in fs:
             camp.fail(b, sc, d)
     selectors()
